@@ -122,10 +122,15 @@ impl Property for C03 {
     const ID: &'static str = "C03";
     type Case = C03Case;
     fn strategy(_tier: Tier) -> BoxedStrategy<C03Case> {
-        let sched = (0u8..=2, 0u8..=2, proptest::collection::vec((1u8..=2, any::<bool>()), 1..=3), 1u8..=3, proptest::collection::vec(any::<bool>(), 3), proptest::collection::vec(any::<u16>(), 0..100))
-            .prop_map(|(sq_log2, gap, submitters, polls, complete_before_poll, wake_tape)| C03Case::Sched(WakeCase { sq_log2, gap, submitters, polls, complete_before_poll, wake_tape }));
+        let sched = (0u8..=2, 0u8..=2, proptest::collection::vec((1u8..=2, any::<bool>()), 1..=3), 1u8..=3, proptest::collection::vec(any::<bool>(), 3), any::<bool>(), 0u8..=3, proptest::collection::vec(any::<u16>(), 0..100))
+            .prop_map(|(sq_log2, gap, submitters, polls, complete_before_poll, shared_waker, executor_rounds, wake_tape)| C03Case::Sched(WakeCase { sq_log2, gap, submitters, polls, complete_before_poll, shared_waker, executor_rounds, ring_waits: false, wake_tape }));
+        // One task with two operations completing in one batch while its
+        // executor runs on another thread.
+        let batch = (1u8..=2, any::<bool>(), 2u8..=3, proptest::collection::vec(any::<u16>(), 0..120)).prop_map(|(sq_log2, repoll, polls, wake_tape)| {
+            C03Case::Sched(WakeCase { sq_log2, gap: 4, submitters: vec![(2, repoll)], polls, complete_before_poll: vec![false, true, true], shared_waker: true, executor_rounds: 6, ring_waits: true, wake_tape })
+        });
         let seq = (strat::ring_cfg(2), proptest::collection::vec(strat::step(strat::kind_basic().boxed(), 1, 1), 0..70)).prop_map(|(cfg, steps)| C03Case::Seq(History { cfg, steps, teardown: None }));
-        prop_oneof![3 => seq, 2 => sched].boxed()
+        prop_oneof![6 => seq, 3 => sched, 1 => batch].boxed()
     }
     fn cases(tier: Tier) -> u32 {
         tier.pick(6_000, 400_000)
